@@ -53,7 +53,8 @@ def _case(draw):
         wd = [draw(st.floats(20.0, 800.0)), draw(st.floats(0.17, 0.6)), draw(st.floats(0.0, 2.5))]
     return {"table": draw(st.sampled_from(TABLES)),
             "form": draw(st.sampled_from(["dicts", "dicts", "model-points", "mbc-points"])),
-            "points": pts, "wd": wd, "twice": draw(st.booleans()), "sharer": draw(st.booleans())}
+            "points": pts, "wd": wd, "twice": draw(st.booleans()), "sharer": draw(st.booleans()),
+            "pref_velocity": draw(st.sampled_from(VEL))}
 
 
 def _bcpoints(case):
@@ -85,6 +86,8 @@ def _build(case, bps, table):
 
 def check(case):
     r = Res()
+    # explicit-unit inputs: the preferred velocity unit in force must not matter (it is reset after the case)
+    pb.PreferredUnits.velocity = Unit[case.get("pref_velocity", "FPS")]
     std = getattr(pb, case["table"])
     std_snapshot = copy.deepcopy(std)
     r.label("form:" + case["form"], f"points:{len(case['points'])}", "by-velocity" if "v" in case["points"][0] else "by-mach")
